@@ -27,24 +27,33 @@ InPair(pairs, x) == \E k \in 1..Len(pairs) : pairs[k][1] = x \/ pairs[k][2] = x
 PairOf(pairs, x) == pairs[CHOOSE k \in 1..Len(pairs) : pairs[k][1] = x \/ pairs[k][2] = x]
 DenOfModel(mo) == IF Len(mo.rot) + Len(mo.bog) = 0 THEN 1 ELSE 5
 
-\* c_i expressed in d, d^+  (over D)
-CExp(mo, i) ==
+\* a linear form is a sequence of <<re, im, kind, mode>> (Gaussian-integer coefficient over D)
+\* gauge phases (complex build): for every mode p listed in mo.ph the operator handed to the library is c'_p = i c_p
+HasPhase(mo, p) == \E k \in 1..Len(mo.ph) : mo.ph[k] = p
+\* c_i expressed in d, d^+  (over D), before the gauge phase
+CExp0(mo, i) ==
   LET D == DenOfModel(mo) IN
   IF InPair(mo.rot, i) THEN LET pq == PairOf(mo.rot, i) IN
-        IF i = pq[1] THEN << <<3, 0, pq[1]>>, <<-4, 0, pq[2]>> >> ELSE << <<4, 0, pq[1]>>, <<3, 0, pq[2]>> >>
+        IF i = pq[1] THEN << <<3, 0, 0, pq[1]>>, <<-4, 0, 0, pq[2]>> >> ELSE << <<4, 0, 0, pq[1]>>, <<3, 0, 0, pq[2]>> >>
   ELSE IF InPair(mo.bog, i) THEN LET pq == PairOf(mo.bog, i) IN
-        IF i = pq[1] THEN << <<3, 0, pq[1]>>, <<-4, 1, pq[2]>> >> ELSE << <<4, 1, pq[1]>>, <<3, 0, pq[2]>> >>
-  ELSE << <<D, 0, i>> >>
-\* d_a expressed in c, c^+  (over D)
-DExp(mo, a) ==
+        IF i = pq[1] THEN << <<3, 0, 0, pq[1]>>, <<-4, 0, 1, pq[2]>> >> ELSE << <<4, 0, 1, pq[1]>>, <<3, 0, 0, pq[2]>> >>
+  ELSE << <<D, 0, 0, i>> >>
+MulI(f) == [k \in 1..Len(f) |-> <<-f[k][2], f[k][1], f[k][3], f[k][4]>>]          \* multiply every coefficient by i
+CExp(mo, i) == IF HasPhase(mo, i) THEN MulI(CExp0(mo, i)) ELSE CExp0(mo, i)
+\* d_a expressed in c', c'^+  (over D): c_p = -i c'_p and c^+_p = i c'^+_p for the phased modes
+DExp0(mo, a) ==
   LET D == DenOfModel(mo) IN
   IF InPair(mo.rot, a) THEN LET pq == PairOf(mo.rot, a) IN
-        IF a = pq[1] THEN << <<3, 0, pq[1]>>, <<4, 0, pq[2]>> >> ELSE << <<-4, 0, pq[1]>>, <<3, 0, pq[2]>> >>
+        IF a = pq[1] THEN << <<3, 0, 0, pq[1]>>, <<4, 0, 0, pq[2]>> >> ELSE << <<-4, 0, 0, pq[1]>>, <<3, 0, 0, pq[2]>> >>
   ELSE IF InPair(mo.bog, a) THEN LET pq == PairOf(mo.bog, a) IN
-        IF a = pq[1] THEN << <<3, 0, pq[1]>>, <<4, 1, pq[2]>> >> ELSE << <<-4, 1, pq[1]>>, <<3, 0, pq[2]>> >>
-  ELSE << <<D, 0, a>> >>
-AdjForm(f) == [k \in 1..Len(f) |-> <<f[k][1], 1 - f[k][2], f[k][3]>>]        \* real coefficients
-FormPoly(f) == [k \in 1..Len(f) |-> PTerm(<< <<f[k][2], f[k][3]>> >>, f[k][1], 0)]
+        IF a = pq[1] THEN << <<3, 0, 0, pq[1]>>, <<4, 0, 1, pq[2]>> >> ELSE << <<-4, 0, 1, pq[1]>>, <<3, 0, 0, pq[2]>> >>
+  ELSE << <<D, 0, 0, a>> >>
+DExp(mo, a) == LET f == DExp0(mo, a) IN
+  [k \in 1..Len(f) |-> IF ~HasPhase(mo, f[k][4]) THEN f[k]
+                        ELSE IF f[k][3] = 0 THEN <<f[k][2], -f[k][1], 0, f[k][4]>>      \* times -i
+                        ELSE <<-f[k][2], f[k][1], 1, f[k][4]>>]                          \* times +i
+AdjForm(f) == [k \in 1..Len(f) |-> <<f[k][1], -f[k][2], 1 - f[k][3], f[k][4]>>]         \* conjugate coefficient, flip kind
+FormPoly(f) == [k \in 1..Len(f) |-> PTerm(<< <<f[k][3], f[k][4]>> >>, f[k][1], f[k][2])]
 
 \* the transformation is canonical: {d_a, d^+_b} = delta_ab, {d_a, d_b} = 0 (as matrices on the c-Fock space, scaled by D^2)
 Canonical(mo) ==
@@ -61,21 +70,23 @@ Inverse(mo) ==
       dd(a) == PolyMat(FormPoly(AdjForm(DExp(mo, a))), M)
       RECURSIVE Sub(_)
       Sub(f) == IF f = <<>> THEN Zero
-                ELSE MAdd(MScale(<<Head(f)[1], 0>>, IF Head(f)[2] = 0 THEN dm(Head(f)[3]) ELSE dd(Head(f)[3])), Sub(Tail(f))) IN
+                ELSE MAdd(MScale(<<Head(f)[1], Head(f)[2]>>, IF Head(f)[3] = 0 THEN dm(Head(f)[4]) ELSE dd(Head(f)[4])), Sub(Tail(f))) IN
   \A i \in 0..(M - 1) : Sub(CExp(mo, i)) = MScale(<<D * D, 0>>, MonoMat(<<An(i)>>, M))
 
 \* ---- the Hamiltonian handed to the library: expansion by distributivity only ------------------------
 \* product of linear forms -> sequence of [ops, num]; ops in the order of the factors
 RECURSIVE FormProd(_)
 FormProd(fs) ==
-  IF fs = <<>> THEN << [ops |-> <<>>, num |-> 1] >>
+  IF fs = <<>> THEN << [ops |-> <<>>, num |-> 1, numi |-> 0] >>
   ELSE LET rest == FormProd(Tail(fs))  f == Head(fs) IN
        LET RECURSIVE Outer(_)
            Outer(k) == IF k > Len(f) THEN <<>>
-                       ELSE [r \in 1..Len(rest) |-> [ops |-> << <<f[k][2], f[k][3]>> >> \o rest[r].ops, num |-> f[k][1] * rest[r].num]] \o Outer(k + 1)
+                       ELSE [r \in 1..Len(rest) |-> [ops |-> << <<f[k][3], f[k][4]>> >> \o rest[r].ops,
+                                                       num |-> f[k][1] * rest[r].num - f[k][2] * rest[r].numi,
+                                                       numi |-> f[k][1] * rest[r].numi + f[k][2] * rest[r].num]] \o Outer(k + 1)
        IN Outer(1)
 NForm(mo, a) == << AdjForm(DExp(mo, a)), DExp(mo, a) >>            \* n_a = d^+_a d_a
-ScaleTerms(ts, z) == [k \in 1..Len(ts) |-> [ops |-> ts[k].ops, num |-> ts[k].num * z]]
+ScaleTerms(ts, z) == [k \in 1..Len(ts) |-> [ops |-> ts[k].ops, num |-> ts[k].num * z, numi |-> ts[k].numi * z]]
 RECURSIVE CatRange(_, _, _)
 CatRange(ss, lo, hi) == IF lo > hi THEN <<>> ELSE IF lo = hi THEN ss[lo]
                         ELSE LET mid == (lo + hi) \div 2 IN CatRange(ss, lo, mid) \o CatRange(ss, mid + 1, hi)
@@ -86,7 +97,7 @@ HcTerms(mo) ==
   LET D == DenOfModel(mo) IN
   Cat([a \in 1..mo.M |-> IF mo.eps[a] = 0 THEN <<>> ELSE ScaleTerms(FormProd(NForm(mo, a - 1)), mo.eps[a] * D * D)]) \o
   Cat([k \in 1..Len(mo.U) |-> ScaleTerms(FormProd(NForm(mo, mo.U[k][1]) \o NForm(mo, mo.U[k][2])), mo.U[k][3])])
-HcPoly(mo) == LET ts == HcTerms(mo) IN [k \in 1..Len(ts) |-> PTerm(ts[k].ops, ts[k].num, 0)]
+HcPoly(mo) == LET ts == HcTerms(mo) IN [k \in 1..Len(ts) |-> PTerm(ts[k].ops, ts[k].num, ts[k].numi)]
 \* H written in d (for the self-check that the expansion is what it claims to be)
 \* check: the c-Fock matrix of the expansion is Hermitian
 HcHermitian(mo) == Hermitian(PolyMat(HcPoly(mo), mo.M))
